@@ -314,6 +314,32 @@ func TestC16Schema(t *testing.T) {
 			for _, k := range keys {
 				g := groups[k]
 
+				// A relationship may first have been declared otherwise
+				// (another cardinality), looked at, taken out and declared
+				// anew: what counts is what the schema holds in the end.
+				if rapid.IntRange(0, 3).Draw(t, "redeclared") == 0 {
+					first := g[0]
+					first.ToOne = !first.ToOne
+
+					var err error
+
+					if first.ToName != "" {
+						first.FromOne = !first.FromOne
+						err = s3.AddTwoWayRel(first)
+					} else {
+						err = s3.AddRel(first.FromType, first)
+					}
+
+					if err == nil {
+						s3.Rels()
+						s3.RemoveRel(first.FromType, first.FromName)
+
+						if first.ToName != "" {
+							s3.RemoveRel(first.ToType, first.ToName)
+						}
+					}
+				}
+
 				switch {
 				case len(g) == 2 && g[0].Invert() == g[1]:
 					if s3.AddTwoWayRel(g[rapid.IntRange(0, 1).Draw(t, "side")]) != nil {
